@@ -317,13 +317,19 @@ type extractCfg struct {
 	threads int
 	of      float32
 	http    bool
+	flaky   bool // the origin cuts the body of the first tile-data response short (once)
+	cut     int  // the local source file is truncated by this many bytes
 }
 
 type recordedRange struct{ lo, hi int64 } // [lo, hi]
 
 func runExtract(src []byte, minz, maxz int8, bbox string, cfg extractCfg) ([]byte, []recordedRange, error) {
 	path := scratchFile(".pmtiles")
-	os.WriteFile(path, src, 0o644)
+	if cfg.cut > 0 && cfg.cut < len(src) {
+		os.WriteFile(path, src[:len(src)-cfg.cut], 0o644)
+	} else {
+		os.WriteFile(path, src, 0o644)
+	}
 	defer os.Remove(path)
 	out := scratchFile(".out.pmtiles")
 	defer os.Remove(out)
@@ -332,7 +338,13 @@ func runExtract(src []byte, minz, maxz int8, bbox string, cfg extractCfg) ([]byt
 	key := path
 	if cfg.http {
 		var mu sync.Mutex
+		cutDone := false
+		tdo := int64(-1)
+		if h, err := pmtiles.DeserializeHeader(src[:127]); err == nil {
+			tdo = int64(h.TileDataOffset)
+		}
 		srv := httptest.NewServer(http.HandlerFunc(func(w http.ResponseWriter, r *http.Request) {
+			cutThis := false
 			if rg := r.Header.Get("Range"); strings.HasPrefix(rg, "bytes=") {
 				p := strings.Split(strings.TrimPrefix(rg, "bytes="), "-")
 				if len(p) == 2 {
@@ -340,7 +352,32 @@ func runExtract(src []byte, minz, maxz int8, bbox string, cfg extractCfg) ([]byt
 					b, _ := strconv.ParseInt(p[1], 10, 64)
 					mu.Lock()
 					recs = append(recs, recordedRange{a, b})
+					if cfg.flaky && !cutDone && tdo >= 0 && a >= tdo && b > a {
+						cutDone, cutThis = true, true
+					}
 					mu.Unlock()
+				}
+			}
+			if cutThis {
+				// announce the whole range, deliver half of it, close the connection
+				rec := httptest.NewRecorder()
+				http.ServeContent(rec, r, "a.pmtiles", time.Unix(0, 0), bytes.NewReader(src))
+				if hj, ok := w.(http.Hijacker); ok {
+					c, bw, _ := hj.Hijack()
+					body := rec.Body.Bytes()
+					fmt.Fprintf(bw, "HTTP/1.1 %d X\r\n", rec.Code)
+					for k, v := range rec.Header() {
+						if k == "Content-Length" && len(recs)%2 == 0 {
+							// every other time the short answer is even well-formed: a proxy that caps the body
+							v = []string{strconv.Itoa(len(body) / 2)}
+						}
+						fmt.Fprintf(bw, "%s: %s\r\n", k, v[0])
+					}
+					bw.WriteString("\r\n")
+					bw.Write(body[:len(body)/2])
+					bw.Flush()
+					c.Close()
+					return
 				}
 			}
 			http.ServeContent(w, r, "a.pmtiles", time.Unix(0, 0), bytes.NewReader(src))
@@ -406,6 +443,49 @@ func randClusteredSource(r *core.Rng) (builtArchive, tileSet, pmtiles.Compressio
 	return ba, ts, ic
 }
 
+// relevantLine: a directory with tile entries, runs and leaf pointers, and a set of wanted tile IDs
+func relevantLine(r *core.Rng) string {
+	// IDs stay small: RelevantEntries materialises [ptr.id, next.id) in a roaring bitmap
+	es := randTileSet(r, r.Intn(40), 300000, r.Bool(), 50).entries
+	for k := range es {
+		if es[k].RunLength > 300 {
+			es[k].RunLength = uint32(2 + r.Intn(40))
+		}
+		if r.Chance(1, 5) {
+			es[k].RunLength = 0 // leaf pointer
+		}
+	}
+	var ivs []iv
+	var lastID uint64 = 10
+	if len(es) > 0 {
+		lastID = es[len(es)-1].TileID + 50
+	}
+	for k := 0; k < r.Intn(5); k++ {
+		lo := r.U64() % (lastID + 1)
+		ivs = append(ivs, iv{lo, lo + 1 + uint64(r.Intn(int(lastID/3)+2))})
+	}
+	if r.Chance(1, 5) {
+		ivs = append(ivs, iv{0, lastID + 100})
+	}
+	if r.Chance(1, 3) && len(es) > 0 {
+		// exactly one tile wanted: the first (or the last) ID an entry — tile run or leaf pointer — stands for
+		k := r.Intn(len(es))
+		id := es[k].TileID
+		if r.Bool() {
+			if es[k].RunLength > 0 {
+				id += uint64(es[k].RunLength) - 1
+			} else if k+1 < len(es) && es[k+1].TileID > id {
+				id = es[k+1].TileID - 1
+			}
+		}
+		ivs = []iv{{id, id + 1}}
+		if r.Bool() {
+			ivs = append(ivs, iv{lastID + 200, lastID + 201})
+		}
+	}
+	return fmt.Sprintf("relevant %d %s D %s", 9+r.Intn(4), fmtIvs(ivs), fmtEntries(es))
+}
+
 // ---------- C07 ----------
 
 type C07 struct{}
@@ -421,30 +501,7 @@ func (C07) Gen(r *core.Rng, tier string, emit func(string)) {
 		nHook, nE2E = 60000, 1500
 	}
 	for i := 0; i < nHook; i++ {
-		// relevant
-		// IDs stay small: RelevantEntries materialises [ptr.id, next.id) in a roaring bitmap
-		es := randTileSet(r, r.Intn(40), 300000, r.Bool(), 50).entries
-		for k := range es {
-			if es[k].RunLength > 300 {
-				es[k].RunLength = uint32(2 + r.Intn(40))
-			}
-			if r.Chance(1, 5) {
-				es[k].RunLength = 0 // leaf pointer
-			}
-		}
-		var ivs []iv
-		var lastID uint64 = 10
-		if len(es) > 0 {
-			lastID = es[len(es)-1].TileID + 50
-		}
-		for k := 0; k < r.Intn(5); k++ {
-			lo := r.U64() % (lastID + 1)
-			ivs = append(ivs, iv{lo, lo + 1 + uint64(r.Intn(int(lastID/3)+2))})
-		}
-		if r.Chance(1, 5) {
-			ivs = append(ivs, iv{0, lastID + 100})
-		}
-		emit(fmt.Sprintf("relevant %d %s D %s", 9+r.Intn(4), fmtIvs(ivs), fmtEntries(es)))
+		emit(relevantLine(r))
 		// reencode: tile entries only
 		ts := randTileSet(r, r.Intn(30), 1<<40, r.Bool(), 50)
 		emit("reencode " + fmtEntries(ts.entries))
@@ -467,6 +524,20 @@ func (C07) Gen(r *core.Rng, tier string, emit func(string)) {
 		for _, of := range overfetchChoices {
 			emit(mergeLine(rs, of))
 		}
+	}
+	// thousands of separate download ranges (see stripSource): the shape in which racing download workers collide
+	nStrip := 2
+	if tier == "thorough" {
+		nStrip = 10
+	}
+	for i := 0; i < nStrip; i++ {
+		z := uint8(10 + r.Intn(2))
+		ba, ts, ic, bbox := stripSource(r, z, uint32(300+r.Intn(400)))
+		ivs, err := extractSet(int8(z), int8(z), bbox)
+		if err != nil {
+			continue
+		}
+		emit(fmt.Sprintf("extract %d %s A %s %s %s # %d %d %s", z, fmtIvs(ivs), compName(ic), hexs(ts.data), ba.dirsLine(), -1, -1, bbox))
 	}
 	for i := 0; i < nE2E; i++ {
 		ba, ts, ic := randClusteredSource(r)
@@ -572,6 +643,9 @@ func runExtractConfigs(t []string, cfgs []extractCfg) ([]extractRun, []byte, str
 	for _, c := range cfgs {
 		out, recs, err := runExtract(src, int8(minz), int8(maxz), bbox, c)
 		if err != nil {
+			if c.flaky || c.cut > 0 {
+				continue // a failed transfer may fail the extract; a run that reports success is judged like any other
+			}
 			return nil, src, "extract-error " + strings.ReplaceAll(trunc(err.Error(), 80), " ", "_")
 		}
 		runs = append(runs, extractRun{out, recs, c})
@@ -581,7 +655,11 @@ func runExtractConfigs(t []string, cfgs []extractCfg) ([]extractRun, []byte, str
 
 // {8,0} and {4,0,http}: no merging, so every discontiguity is its own download — the configurations in
 // which concurrent range writers actually overlap
-var c07Cfgs = []extractCfg{{1, 0, false}, {4, 0.3, false}, {2, 8, false}, {4, 8, true}, {1, 0.3, true}, {8, 0, false}, {4, 0, true}}
+var c07Cfgs = []extractCfg{{threads: 1}, {threads: 4, of: 0.3}, {threads: 2, of: 8}, {threads: 4, of: 8, http: true}, {threads: 1, of: 0.3, http: true}, {threads: 8}, {threads: 4, http: true},
+	// a transfer that goes wrong on a VALID source: the origin cuts one tile-data body short — the extract may
+	// fail, but if it reports success its output is the same exact restriction.  (Truncated source FILES are
+	// outside the property: they are not archives; see DESIGN §9.3 observations.)
+	{threads: 2, of: 0.3, http: true, flaky: true}}
 
 func (C07) RunGo(line string) string {
 	t := strings.Fields(line)
@@ -643,7 +721,37 @@ func (C07) Oracle(line, goOut string) string {
 		ivT, rest := splitTok(t[2:], "D")
 		es, _, _ := parseEntries(rest)
 		S := bitmapOf(parseIvs(ivT))
-		tiles, _ := pmtiles.RelevantEntries(S, uint8(maxz), es)
+		tiles, leaves := pmtiles.RelevantEntries(S, uint8(maxz), es)
+		// a leaf pointer is followed iff a wanted tile lies in the ID span it stands for: from its own ID up to
+		// the next entry's ID (the last pointer: up to the end of zoom maxz)
+		gotLeaf := map[[2]uint64]bool{}
+		for _, l := range leaves {
+			gotLeaf[[2]uint64{l.Offset, uint64(l.Length)}] = true
+		}
+		for i, e := range es {
+			if e.RunLength != 0 {
+				continue
+			}
+			hi := base(uint(maxz) + 1)
+			if i+1 < len(es) {
+				hi = es[i+1].TileID
+			}
+			need := false
+			if hi > e.TileID {
+				need = S.Rank(hi-1) > S.Rank(e.TileID) || S.Contains(e.TileID)
+			}
+			if need != gotLeaf[[2]uint64{e.Offset, uint64(e.Length)}] {
+				dup := false // two pointers with the same target would make the comparison ambiguous
+				for j, o := range es {
+					if j != i && o.RunLength == 0 && o.Offset == e.Offset && o.Length == e.Length {
+						dup = true
+					}
+				}
+				if !dup {
+					return fmt.Sprintf("leaf pointer %d (IDs %d..%d): wanted tiles inside = %v, but followed = %v", i, e.TileID, hi-1, need, !need)
+				}
+			}
+		}
 		want := map[uint64][2]uint64{}
 		for _, e := range es {
 			for k := uint64(0); k < uint64(e.RunLength); k++ {
